@@ -1,6 +1,9 @@
 package zones
 
-import "testing"
+import (
+	"testing"
+	"time"
+)
 
 func TestGaps(t *testing.T) {
 	if len(Names()) < 400 {
@@ -27,4 +30,20 @@ func TestGaps(t *testing.T) {
 		total += len(MidnightGaps(n, 1900, 2100))
 	}
 	t.Logf("midnight gaps 1900-2100 over all zones: %d", total)
+}
+
+func TestJumpsDaily(t *testing.T) {
+	loc := JumpsToday()
+	if loc == nil {
+		t.Fatal("cannot build the synthetic zone")
+	}
+	now := time.Now().UTC()
+	gap := time.Date(now.Year(), now.Month(), now.Day(), 2, 30, 0, 0, loc)
+	if gap.Hour() == 2 {
+		t.Errorf("02:30 today exists in the synthetic zone: %v", gap)
+	}
+	ok := time.Date(now.Year(), now.Month(), now.Day(), 12, 30, 0, 0, loc)
+	if ok.Hour() != 12 {
+		t.Errorf("12:30 today: %v", ok)
+	}
 }
